@@ -22,6 +22,10 @@ CHECKS = {
    technique="explicit-state search over committed zone contents; every transaction (1-3 operations x argument forms x name spellings x endings incl. an exception injected after every operation index) executed on the real zones and compared with a reference zone model",
    text="From 6 initial zones, BFS over committed contents; at every state every 1-op transaction of a ~60-call alphabet (add/replace/delete/delete_exact in every argument form, update_serial incl. RFC 1982 wrap) with names spelled relative and absolute, and every 2-op (thorough: also 3-op) transaction over a sub-alphabet, is run on plain/versioned/btree zones x relativize on/off and ended by commit, explicit commit, rollback or an exception after each operation; content, exceptions, reads inside the transaction, version lists, and refusal by ended/read-only transactions are compared with mc/refs/zonemodel.py.",
    note="Small universe (4 names, 10 records, TTL 3-20); BFS depth 1-2 transactions; the reference model is written from docstrings; rdata/name equality is taken from the library (C07)."),
+ "C11": dict(level="model_checking", ref="DESIGN.md §2 C11",
+   technique="explicit-state BFS over reader/writer/pruning-policy event histories on the real versioned and B-tree zones, with reflection-driven enumeration of the mutator surface reachable from a snapshot",
+   text="BFS (depth 7 quick / 9 thorough, canonical state = retained versions with relative ids and content, pinned ids, policy, pending writer ops) over histories of reader open (latest / by id / by serial, incl. missing), reader close, writer begin/op/commit/rollback, set_max_versions and custom pruning policies; in every state every open reader's full read API is compared with the content recorded when its version was committed, ids must increase, retained versions must be a contiguous run containing the newest and all pinned versions and, at every pruning trigger, exactly the reference deque; at states up to depth 4-5 every mutator found by reflection on the version, map, nodes, rdatasets, rdatas, names and on objects handed out by the transaction API must raise and leave the snapshot unchanged.",
+   note="Single-threaded histories (schedules are C12); <= 2-3 open readers and commits; for B-tree-backed maps/sets only the public mapping/set API is demanded to raise (private attributes of a frozen BTreeDict are not attribute-immutable by design)."),
 }
 ALL = ["C%02d" % i for i in range(1, 21)]
 m = {
